@@ -179,6 +179,40 @@ func verifyFunc(l *Loaded, spec *FuncSpec, prop string) (res *FuncResult) {
 			pv.Nil = TFalse // pointer parameters are non-nil unless a contract says otherwise
 			e.note("pointer parameters of functions under contract are non-nil and pairwise non-aliased")
 		}
+		// "nullable p.Field": that pointer field of the parameter may be nil
+		for _, np := range sp.Nullable {
+			parts := strings.Split(np, ".")
+			if len(parts) != 2 || parts[0] != p.Name() {
+				continue
+			}
+			sv, ok := v.(*StructV)
+			if pv, isP := v.(*PtrV); isP {
+				sv, ok = st.Heap[pv.Obj].(*StructV)
+			}
+			if !ok {
+				x.fail("nullable %s: parameter is not a struct value", np)
+			}
+			us := sv.Typ.Underlying().(*types.Struct)
+			done := false
+			for i := 0; i < us.NumFields(); i++ {
+				if us.Field(i).Name() == parts[1] {
+					fv := sv.F[i]
+					if tv, isT := fv.(T); isT {
+						fv = e.reflect(st, tv, us.Field(i).Type())
+					}
+					fp, isP := fv.(*PtrV)
+					if !isP {
+						x.fail("nullable %s: field is not a pointer (%T)", np, fv)
+					}
+					sv.F[i] = &PtrV{Nil: e.fresh(parts[1]+"_isnil", SBool), Obj: fp.Obj, Path: fp.Path, Elem: fp.Elem}
+					sv.Orig = nil
+					done = true
+				}
+			}
+			if !done {
+				x.fail("nullable %s: no such field", np)
+			}
+		}
 		args = append(args, v)
 	}
 	// free variables of closures under contract: fresh cells
